@@ -24,9 +24,10 @@ from functools import partial
 
 import numpy as np
 
-from lib import core, gen, oracle, graphcap, grapheval
+from lib import core, gen, oracle, graphcap, grapheval, dagcap
 
 EXTRACTORS = ["Kernels"]
+EXTRA_PROPS = ["C05Dag"]
 BACKENDS = [None, "numpy", "numpy.numpylike", "numpy.einsum"]
 UPDATE_OPS = ["set_at", "add_at", "subtract_at"]
 
@@ -316,11 +317,13 @@ def lean_equiv(ctx, items):
     if not ctx.driver_ok or not items:
         return []
     reqs = []
-    for gj1, post, _, _ in items:
+    for it in items:
+        gj1, post = it[0], it[1]
         gj2, _ = graphcap.graph_to_json(post)
         reqs.append({"kind": "equiv", "pre": gj1, "post": gj2})
     out = ctx.driver().ask_many(reqs, chunk=200)
-    for r, (_, _, sig, replay) in zip(out, items):
+    for r, it in zip(out, items):
+        sig, replay = it[2], it[3]
         v = r["verdict"]
         ctx.count("equiv:" + v)
         if v == "equal":
@@ -330,6 +333,57 @@ def lean_equiv(ctx, items):
         elif v in ("differs", "rejected"):
             ctx.tie_broken("equiv:optimised-vs-unoptimised", f"{sig}: {json.dumps(r)[:700]}")
     return out
+
+
+def lean_optdag(ctx, items):
+    """T-str, traversal: the Lean model of the REAL traversal (`Optimize/Dag.lean: optimizeDag` -- memo, pattern order, rebuild, pass
+    loop) is run by the driver on the store of every real pre-optimisation graph with the REAL pattern list of the numpy backend; its
+    output must be structurally equal (canonical form of lib.dagcap) to the real optimised graph, pass by pass flag `changed` included.
+    items: [(pre graph JSON, post graph, sig, replay, [changed flag of every real pass] | None)]."""
+    if not ctx.driver_ok or not items:
+        return
+    try:
+        pats = dagcap.patterns_json(numpy_patterns())
+    except dagcap.Unsupported as e:
+        ctx.tie_broken("correspondence:optdag", f"pattern list of the numpy backend cannot be described to the model: {e}")
+        return
+    reqs, keep = [], []
+    for it in items:
+        gj1, post, sig = it[0], it[1], it[2]
+        flags = it[4] if len(it) > 4 else None
+        try:
+            pre = dagcap.to_dag(gj1)
+            want = dagcap.canon(dagcap.to_dag(graphcap.graph_to_json(post)[0]))
+        except dagcap.Unsupported as e:
+            ctx.count("optdag:not-serialisable:" + str(e)[:40])
+            continue
+        reqs.append({"kind": "optdag", "prog": pre, "patterns": pats, "max_passes": len(pre["nodes"]) + 3})
+        keep.append((sig, want, flags, pre))
+    out = ctx.driver().ask_many(reqs, chunk=100)
+    for r, (sig, want, flags, pre) in zip(out, keep):
+        if "error_kind" in r:
+            if r["error_kind"] == "unsupported":
+                ctx.count("optdag:unsupported:" + r.get("why", "")[:40])
+            else:     # the real optimiser returned a graph, the model says Python raises / the fuel bound is not enough
+                ctx.count("optdag:MODEL-ERROR")
+                ctx.tie_broken("correspondence:optdag", f"{sig}: the real optimiser returns a graph, the model answers {json.dumps(r)[:300]}")
+            continue
+        d = dagcap.first_difference(dagcap.canon(r["prog"]), want)
+        if d is not None:
+            ctx.count("optdag:DIFFERS")
+            ctx.tie_broken("correspondence:optdag", f"{sig}: model output and real optimised graph differ structurally at {d[:500]}")
+            continue
+        if flags is not None and list(flags) != list(r["changed"]):
+            ctx.count("optdag:PASS-FLAGS-DIFFER")
+            ctx.tie_broken("correspondence:optdag", f"{sig}: `changed` per pass: real {list(flags)}, model {r['changed']}")
+            continue
+        ctx.count("optdag:structurally-equal")
+        ctx.count(f"optdag:passes:{len(r['changed'])}")
+        if any(n["origin"] and "app" in n["origin"] and n["origin"]["app"]["head"][0] in ("call_inplace", "updateitem") for n in pre["nodes"]):
+            ctx.count("optdag:structurally-equal:with-inplace-nodes")
+        if any(r["changed"]):
+            ctx.count("optdag:structurally-equal:rewritten")
+        ctx.extra["optdag_structurally_equal"] = ctx.extra.get("optdag_structurally_equal", 0) + 1
 
 
 # ------------------------------------------------------------------------------------------------ shrinking
@@ -646,15 +700,17 @@ def stream(ctx, n_calls, n_updates):
         if "CallInplace" in kinds or "UpdateItem" in kinds:
             ctx.count("graphs-with-inplace-nodes")
         ctx.case(sig, nontrivial=changed)
-        items.append((snap["json"], post, sig, replay))
+        items.append((snap["json"], post, sig, replay, [p["changed"] for p in log.runs[-1]] if log.runs else None))
         if len(ctx.samples) < 3 and changed:
             ctx.sample({"call": sig, "nodes_before": dag, "passes": [[p["changed"], p["tree_in"], p["tree_out"]] for run in log.runs for p in run], "code": rec.get("code")})
         if len(items) >= 200:
             lean_equiv(ctx, items)
+            lean_optdag(ctx, items)
             items = []
         if len(ctx.violations) >= 5:
             break
     lean_equiv(ctx, items)
+    lean_optdag(ctx, items)
 
 
 def synthetic(ctx, specs, label):
@@ -698,13 +754,15 @@ def synthetic(ctx, specs, label):
         ctx.case(sig, nontrivial=changed)
         if len(ctx.samples) < 6 and changed and shared:
             ctx.sample({"chain": sig, "passes": [[p["changed"], p["tree_in"], p["tree_out"]] for p in run]})
-        items.append((r["pre_json"], r["post"], sig, replay))
+        items.append((r["pre_json"], r["post"], sig, replay, [p["changed"] for p in run]))
         if len(items) >= 300:
             lean_equiv(ctx, items)
+            lean_optdag(ctx, items)
             items = []
         if len(ctx.violations) >= 5:
             break
     lean_equiv(ctx, items)
+    lean_optdag(ctx, items)
 
 
 def run(ctx):
